@@ -17,13 +17,26 @@ R-GEN-CONST      a module-level table of numbers changed (value, or int against 
 R-GEN-PREFIX     x.startswith(y) / endswith replaced by x == y
 R-GEN-CONV       an argument the reference converts (str(x), int(x), ...) is handed over as it is
 R-GEN-REGEX      a regular expression compiled at module level accepts a different language (decided with tdstatic.rx)
+R-GEN-STATE      an attribute of self the reference method stores (a reset, a counter) is stored neither by the method nor by a method of
+                 the class it calls on self
+R-GEN-SEEK       a .seek(..) the reference function makes on a receiver is gone (or has other arguments) while the function still uses
+                 the receiver: the function now starts from wherever an earlier use left the stream
+R-GEN-MEMO       a changed function keeps a result in a store the reference module does not have (an attribute of self, a module-level
+                 container): an attribute memo must be reset unconditionally by every method of the class that can change what the
+                 reference body reads; a module-level memo must be keyed on everything the reference body reads from its parameters
+R-GEN-ACCUM      a counter / accumulator the reference advances (`x += e`) is advanced under more tests than in the reference (it is
+                 updated on one branch only)
+R-GEN-CARRY      a loop-carried copy (`prev = cur` in a loop body) changed places: reads of `prev` that saw the value of the previous
+                 round now see the current one (or the reverse)
+R-GEN-STOREORDER the stores to self that the reference method makes in one block are made in another order (a value that fails
+                 between them leaves the object half updated)
 """
 import ast
 
 from .. import equiv, gate, loader, rx
 from . import common
 
-RULES = ('R-GEN-NONE', 'R-GEN-LENGTH', 'R-GEN-SENTINEL', 'R-GEN-SUBSTR', 'R-GEN-ISINSTANCE', 'R-GEN-REGEX', 'R-GEN-CODEC', 'R-GEN-CASE', 'R-GEN-DTYPE', 'R-GEN-CONST', 'R-GEN-PREFIX', 'R-GEN-CONV')
+RULES = ('R-GEN-ACCUM', 'R-GEN-CARRY', 'R-GEN-STATE', 'R-GEN-SEEK', 'R-GEN-MEMO', 'R-GEN-STOREORDER', 'R-GEN-NONE', 'R-GEN-LENGTH', 'R-GEN-SENTINEL', 'R-GEN-SUBSTR', 'R-GEN-ISINSTANCE', 'R-GEN-REGEX', 'R-GEN-CODEC', 'R-GEN-CASE', 'R-GEN-DTYPE', 'R-GEN-CONST', 'R-GEN-PREFIX', 'R-GEN-CONV')
 
 
 def _txt(e):
@@ -79,6 +92,114 @@ def _assigned(f, pred):
                 if isinstance(t, (ast.Name, ast.Attribute)):
                     out.setdefault(_txt(t), n)
     return out
+
+
+
+def _self_stores(fn):
+    """attribute names stored on self (assignment, augmented assignment, deletion), in source order"""
+    out = []
+    for n in ast.walk(fn):
+        tg = n.targets if isinstance(n, (ast.Assign, ast.Delete)) else [n.target] if isinstance(n, (ast.AugAssign, ast.AnnAssign)) else []
+        for t in tg:
+            for e in (t.elts if isinstance(t, (ast.Tuple, ast.List)) else [t]):
+                if isinstance(e, ast.Attribute) and isinstance(e.value, ast.Name) and e.value.id == 'self':
+                    out.append((getattr(e, 'lineno', 0), getattr(e, 'col_offset', 0), e.attr))
+    return [a for _l, _c, a in sorted(out)]
+
+
+def _self_calls(fn):
+    return {n.func.attr for n in ast.walk(fn) if isinstance(n, ast.Call) and isinstance(n.func, ast.Attribute) and isinstance(n.func.value, ast.Name) and n.func.value.id == 'self'}
+
+
+def _self_reads(fn):
+    return {n.attr for n in ast.walk(fn) if isinstance(n, ast.Attribute) and isinstance(n.value, ast.Name) and n.value.id == 'self' and isinstance(n.ctx, ast.Load)}
+
+
+def _position_calls(fn):
+    """receiver text -> list of argument texts of the .seek(..) calls on it"""
+    out = {}
+    for n in ast.walk(fn):
+        if isinstance(n, ast.Call) and isinstance(n.func, ast.Attribute) and n.func.attr == 'seek':
+            out.setdefault(_txt(n.func.value), []).append(', '.join(_txt(a) for a in n.args))
+    return out
+
+
+_PURE_METHODS = {'get', 'keys', 'values', 'items', 'index', 'count', 'copy', 'format', 'join', 'startswith', 'endswith', 'tell', 'find', 'decode', 'encode', 'lower', 'upper', 'strip'}
+
+
+def _may_mutate(fn, attrs, pure_names=frozenset()):
+    """does fn store to, or call a possibly mutating method on, one of the self attributes `attrs` (or a part of one)?"""
+    def root(e):
+        while isinstance(e, (ast.Subscript, ast.Attribute)) and not (isinstance(e, ast.Attribute) and isinstance(e.value, ast.Name) and e.value.id == 'self'):
+            e = e.value
+        return e.attr if isinstance(e, ast.Attribute) and isinstance(e.value, ast.Name) and e.value.id == 'self' else None
+    for n in ast.walk(fn):
+        tg = n.targets if isinstance(n, (ast.Assign, ast.Delete)) else [n.target] if isinstance(n, (ast.AugAssign, ast.AnnAssign)) else []
+        for t in tg:
+            for e in (t.elts if isinstance(t, (ast.Tuple, ast.List)) else [t]):
+                if root(e) in attrs:
+                    return n
+        if isinstance(n, ast.Call) and isinstance(n.func, ast.Attribute) and n.func.attr not in _PURE_METHODS and n.func.attr not in pure_names and not (n.func.attr.startswith('__')) and root(n.func.value) in attrs:
+            return n
+    return None
+
+
+def _unconditional_store(fn, attr):
+    """is self.<attr> stored by a statement of the body of fn itself (not under a test or loop) before any top-level return?"""
+    for st in fn.body:
+        if isinstance(st, (ast.Return, ast.Raise)):
+            return False
+        if attr in _self_stores(st) and isinstance(st, (ast.Assign, ast.AugAssign, ast.AnnAssign, ast.Delete)):
+            return True
+        if isinstance(st, ast.If) and st.orelse and all(any(attr in _self_stores(x) and isinstance(x, (ast.Assign, ast.AugAssign, ast.AnnAssign)) for x in br) for br in (st.body, st.orelse)):
+            return True
+    return False
+
+
+def _aug_guards(fn):
+    """(target text, operator, value text) of every augmented assignment -> list of the sets of enclosing test texts (with branch)"""
+    out = {}
+
+    def rec(stmts, guards):
+        for st in stmts:
+            if isinstance(st, ast.AugAssign):
+                out.setdefault((_txt(st.target), type(st.op).__name__, _txt(st.value)), []).append(frozenset(guards))
+            elif isinstance(st, ast.If):
+                rec(st.body, guards | {'if ' + _txt(st.test)})
+                rec(st.orelse, guards | {'else ' + _txt(st.test)})
+            elif isinstance(st, (ast.For, ast.AsyncFor, ast.While)):
+                rec(st.body, guards)
+                rec(st.orelse, guards)
+            elif isinstance(st, (ast.With, ast.AsyncWith)):
+                rec(st.body, guards)
+            elif isinstance(st, ast.Try):
+                rec(st.body, guards)
+                for h in st.handlers:
+                    rec(h.body, guards | {'except ' + (_txt(h.type) if h.type is not None else '')})
+                rec(st.orelse, guards)
+                rec(st.finalbody, guards)
+    rec(fn.body, frozenset())
+    return out
+
+
+def _carried_copies(fn):
+    """(a, b) for a statement `a = b` (two plain names) standing directly in a loop body -> (loads of a in the statements of the
+    body before it, loads of a in the statements after it)"""
+    out = {}
+    for lp in ast.walk(fn):
+        if not isinstance(lp, (ast.For, ast.While)):
+            continue
+        for i, st in enumerate(lp.body):
+            if isinstance(st, ast.Assign) and len(st.targets) == 1 and isinstance(st.targets[0], ast.Name) and isinstance(st.value, ast.Name):
+                a = st.targets[0].id
+                def loads(stmts):
+                    return sum(1 for s_ in stmts for n in ast.walk(s_) if isinstance(n, ast.Name) and n.id == a and isinstance(n.ctx, ast.Load))
+                k = (a, st.value.id)
+                if k in out:
+                    out[k] = None       # twice: not decided
+                else:
+                    out[k] = (loads(lp.body[:i]), loads(lp.body[i + 1:]))
+    return {k: v for k, v in out.items() if v is not None}
 
 
 def _isinstance_tests(f):
@@ -346,6 +467,101 @@ def check(rep, ix):
                     rep.ob('R-GEN-CONV', site, f'`{callee}` is handed `{conv}({x})`', True, module=mod, node=f)
                 elif (callee, x) in cs_raw:
                     rep.ob('R-GEN-CONV', site, f'`{callee}` is handed `{conv}({x})`', False, found=f'`{x}` as it is', required=f'{conv}({x})', module=mod, node=f)
+            # ---- state: stores on self that are gone
+            cls = _cls
+            if cls is not None and q in ref and ref[q][2] is not None:
+                methods = {g.name: g for g in cls.body if isinstance(g, (ast.FunctionDef, ast.AsyncFunctionDef))}
+                rstores, cstores = _self_stores(rf), _self_stores(f)
+                reach, todo = set(cstores), list(_self_calls(f))
+                seen_m = set()
+                while todo:
+                    m_name = todo.pop()
+                    if m_name in seen_m or m_name not in methods or m_name == f.name:
+                        continue
+                    seen_m.add(m_name)
+                    reach |= set(_self_stores(methods[m_name]))
+                    todo.extend(_self_calls(methods[m_name]))
+                for a_ in sorted(set(rstores)):
+                    ok_ = a_ in reach
+                    rep.ob('R-GEN-STATE', site, f'self.{a_} is stored as in the validated method (state carried to the next use)', ok_, found=f'no store to self.{a_} in {f.name} or the methods it calls on self',
+                           required=f'a store to self.{a_}', module=mod, node=f)
+                if sorted(rstores) == sorted(cstores) and len(set(rstores)) == len(rstores) and len(rstores) > 1:
+                    rep.ob('R-GEN-STOREORDER', site, 'the stores to self are made in the validated order', rstores == cstores, found=' < '.join(cstores), required=' < '.join(rstores), module=mod, node=f)
+                # ---- an attribute memo the reference class does not have
+                ref_mentions = {n.attr for n in ast.walk(rt) if isinstance(n, ast.Attribute)}
+                new_attrs = sorted(a_ for a_ in set(cstores) & _self_reads(f) if a_ not in ref_mentions) if f.name != '__init__' else []
+                defs_by_name = {}
+                for g in ast.walk(mod.tree):
+                    if isinstance(g, (ast.FunctionDef, ast.AsyncFunctionDef)):
+                        defs_by_name.setdefault(g.name, []).append(g)
+                # (a method name all of whose definitions in the module store nothing on self and call nothing but such methods on self)
+                pure_names = {nm for nm, ds in defs_by_name.items() if all(not _self_stores(d) for d in ds)}
+                while True:         # (greatest fixed point: methods that only call one another and store nothing change nothing)
+                    drop = {nm for nm in pure_names if any(_may_mutate(d, _self_reads(d), pure_names) is not None for d in defs_by_name[nm])}
+                    if not drop:
+                        break
+                    pure_names -= drop
+                for a_ in new_attrs:
+                    inputs = _self_reads(rf) - {a_}
+                    bad = []
+                    for g_name, g in sorted(methods.items()):
+                        if g is f or g_name == '__init__':
+                            continue
+                        hit = _may_mutate(g, inputs, pure_names)
+                        if hit is not None and not _unconditional_store(g, a_):
+                            bad.append((g_name, hit))
+                    rep.ob('R-GEN-MEMO', site, f'self.{a_} (a result kept between calls; not in the validated class) is reset without condition by every method that can change {sorted(inputs)}', not bad,
+                           found='; '.join(f'{g_name} (line {getattr(h, "lineno", "?")}: `{_txt(h)[:60]}`) has a path without the reset' for g_name, h in bad), required=f'self.{a_} = None (or a new value) on every path',
+                           module=mod, node=bad[0][1] if bad else f)
+            # ---- a module-level memo keyed on too little
+            ref_globals = {n.id for n in ast.walk(rt) if isinstance(n, ast.Name)}
+            params = {a.arg for a in f.args.posonlyargs + f.args.args + f.args.kwonlyargs} - {'self', 'cls'}
+            def param_reads(fn):
+                out = set()
+                for n in ast.walk(fn):
+                    if isinstance(n, ast.Attribute) and isinstance(n.value, ast.Name) and n.value.id in params:
+                        out.add(f'{n.value.id}.{n.attr}')
+                attr_bases = {x.split('.')[0] for x in out}
+                for n in ast.walk(fn):
+                    if isinstance(n, ast.Name) and n.id in params and isinstance(n.ctx, ast.Load) and n.id not in attr_bases:
+                        out.add(n.id)
+                return out
+            module_names = {t.id for st in mod.tree.body if isinstance(st, (ast.Assign, ast.AnnAssign)) for t in (st.targets if isinstance(st, ast.Assign) else [st.target]) if isinstance(t, ast.Name)}
+            for n in ast.walk(f):
+                key = None
+                if isinstance(n, ast.Assign) and len(n.targets) == 1 and isinstance(n.targets[0], ast.Subscript) and isinstance(n.targets[0].value, ast.Name):
+                    store, key = n.targets[0].value.id, n.targets[0].slice
+                elif isinstance(n, ast.Call) and isinstance(n.func, ast.Attribute) and n.func.attr == 'setdefault' and isinstance(n.func.value, ast.Name) and n.args:
+                    store, key = n.func.value.id, n.args[0]
+                if key is None or store not in module_names or store in ref_globals:
+                    continue
+                need = param_reads(rf)
+                have = {_txt(x) for x in ast.walk(key) if isinstance(x, (ast.Name, ast.Attribute))}
+                missing = sorted(x for x in need if x not in have and x.split('.')[0] not in have)
+                rep.ob('R-GEN-MEMO', site, f'{store} (a process-wide store of results; not in the validated module) is keyed on everything the validated body reads from its parameters', not missing,
+                       found=f'key `{_txt(key)}` leaves out {missing}', required=f'a key made of {sorted(need)}', module=mod, node=n)
+            # ---- stream position
+            rpos, cpos = _position_calls(rf), _position_calls(f)
+            for recv in sorted(rpos):
+                still_used = any(isinstance(n, (ast.Name, ast.Attribute)) and _txt(n) == recv for n in ast.walk(f))
+                if not still_used:
+                    continue
+                ok_ = sorted(cpos.get(recv, [])) == sorted(rpos[recv])
+                rep.ob('R-GEN-SEEK', site, f'`{recv}` is positioned as in the validated function before it is used', ok_, found=f'seek arguments {sorted(cpos.get(recv, []))}', required=f'seek arguments {sorted(rpos[recv])}',
+                       module=mod, node=f)
+            # ---- accumulators advanced under more tests than validated
+            ra, ca = _aug_guards(rf), _aug_guards(f)
+            for k_ in sorted(ra):
+                if k_ in ca and len(ra[k_]) == 1 and len(ca[k_]) == 1:
+                    extra = sorted(ca[k_][0] - ra[k_][0])
+                    ok_ = not (extra and ra[k_][0] <= ca[k_][0])
+                    rep.ob('R-GEN-ACCUM', site, f'`{k_[0]}` advances by `{k_[2]}` under the validated tests only', ok_, found=f'also under {extra}', required=f'under {sorted(ra[k_][0])}', module=mod, node=f)
+            # ---- loop-carried copies
+            rcar, ccar = _carried_copies(rf), _carried_copies(f)
+            for k_ in sorted(rcar):
+                if k_ in ccar:
+                    rep.ob('R-GEN-CARRY', site, f'`{k_[0]} = {k_[1]}` stands where the validated loop has it (reads of `{k_[0]}` before / after it)', rcar[k_] == ccar[k_], found=f'{ccar[k_][0]} reads before, {ccar[k_][1]} after',
+                           required=f'{rcar[k_][0]} reads before, {rcar[k_][1]} after', module=mod, node=f)
             # ---- isinstance class sets
             ri, ci = _isinstance_tests(rf), _isinstance_tests(f)
             for x in sorted(ri):
